@@ -154,7 +154,19 @@ func CosineSimilarity(a, b []float32) float64 {
 		return 0
 	}
 
-	return dot / (math.Sqrt(normA) * math.Sqrt(normB))
+	// Rounding can push the quotient marginally outside [-1, 1]
+	// (e.g. 1.0000000000000002 for identical vectors); clamp it.
+	// Vectors read from a damaged file may also hold NaN or Inf.
+	cos := dot / (math.Sqrt(normA) * math.Sqrt(normB))
+	if math.IsNaN(cos) {
+		return 0 // non-finite components: no meaningful similarity
+	}
+	if cos > 1 {
+		cos = 1
+	} else if cos < -1 {
+		cos = -1
+	}
+	return cos
 }
 
 // SemanticScores computes cosine similarity between query and all commands.
